@@ -7,6 +7,9 @@ head = subprocess.run(["git", "-C", "/repo", "rev-parse", "HEAD"], capture_outpu
 subprocess.run(["git", "-C", wt, "checkout", "-q", "--detach", head], check=True)
 subprocess.run(["git", "-C", wt, "checkout", "-q", "--", "."], check=True)
 r = subprocess.run(["git", "-C", wt, "apply", os.path.join(seed, "patch.diff")], capture_output=True, text=True)
+if r.returncode != 0:   # the patch was made against an older HEAD (before a hook or fix commit touched the same file)
+    r = subprocess.run(["git", "-C", wt, "apply", "--3way", os.path.join(seed, "patch.diff")], capture_output=True, text=True)
+    subprocess.run(["git", "-C", wt, "reset", "-q"], check=False)
 if r.returncode != 0:
     print("PATCH-FAIL", r.stderr[:500]); sys.exit(2)
 env = dict(os.environ, GOML_REPO=wt, VERIF_TIER=os.environ.get("TIER", "quick"))
